@@ -434,20 +434,20 @@ impl Gen {
             let n = self.r.below(self.maxlen + 1);
             let k = if mutc { 6 + self.r.below(4) } else { self.r.below(11) };
             return match k {
-                0 => Op { op: "b_new".into(), ..Default::default() },
+                0 => Op { op: "b_new".into(), mode: self.r.below(2) as i64, ..Default::default() },
                 1 => Op { op: "b_static".into(), a: abs(self.r.below(64)), b: abs(n), mode: self.r.below(3) as i64, ..Default::default() },
                 2 => Op { op: "b_from_vec".into(), a: abs(n), b: abs(self.r.below(4)), mode: (self.r.below(3) == 0) as i64, ..Default::default() },
                 3 => Op { op: "b_from_box".into(), a: abs(n), ..Default::default() },
                 4 => Op { op: "b_copy".into(), a: abs(n), ..Default::default() },
                 5 => Op { op: "b_from_owner".into(), a: abs(n.max(1)), mode: if self.r.chance(10) { 1 } else if self.r.chance(15) { 2 } else if self.r.chance(12) { 3 } else { 0 }, ..Default::default() },
-                6 => Op { op: "m_new".into(), ..Default::default() },
+                6 => Op { op: "m_new".into(), mode: self.r.below(2) as i64, ..Default::default() },
                 7 => {
                     let c = if self.r.chance(25) { [16, 17, 32, 33, 48, 64, 65][self.r.below(7)] } else { self.r.below(2 * self.maxlen + 1) };
                     Op { op: "m_with_capacity".into(), a: abs(c), ..Default::default() }
                 }
                 8 => Op { op: "m_zeroed".into(), a: abs(n), ..Default::default() },
-                9 => Op { op: "m_from_slice".into(), a: abs(n), mode: if self.r.chance(50) { 0 } else { 1 + self.r.below(4) as i64 }, ..Default::default() },
-                _ => Op { op: "b_from_iter".into(), a: abs(n), ..Default::default() },
+                9 => Op { op: "m_from_slice".into(), a: abs(n), mode: if self.r.chance(40) { 0 } else { 1 + self.r.below(6) as i64 }, ..Default::default() },
+                _ => Op { op: "b_from_iter".into(), a: abs(n), mode: self.r.below(3) as i64, ..Default::default() },
             };
         }
         let h = live[self.r.below(live.len())];
@@ -547,7 +547,7 @@ impl Gen {
                                 2 => rel("spare", 1),
                                 _ => abs(self.r.below(self.maxlen + 1)),
                             };
-                            Op { op: "m_extend".into(), h, a, mode: self.r.below(10) as i64, ..Default::default() }
+                            Op { op: "m_extend".into(), h, a, mode: self.r.below(13) as i64, ..Default::default() }
                         }
                         12 => Op { op: "m_put_bytes".into(), h, a: abs(self.r.below(self.maxlen + 1)), val: 200 + self.r.below(16) as u8, ..Default::default() },
                         13 => Op { op: "m_fill_spare".into(), h, ..Default::default() },
@@ -561,7 +561,7 @@ impl Gen {
                             let o = others[self.r.below(others.len())];
                             Op { op: "m_unsplit".into(), h, o, ..Default::default() }
                         }
-                        17 | 18 => Op { op: "m_freeze".into(), h, ..Default::default() },
+                        17 | 18 => Op { op: "m_freeze".into(), h, mode: self.r.below(2) as i64, ..Default::default() },
                         19 => Op { op: "m_into_vec".into(), h, ..Default::default() },
                         20 if room => Op { op: "m_clone".into(), h, ..Default::default() },
                         21 if room => Op { op: "m_copy_to_bytes".into(), h, a: self.index(len), ..Default::default() },
